@@ -27,8 +27,8 @@ ASSUMPTIONS = [
     "commands no ordering rule mentions are not ranked; ties inside one rank are not judged",
     "metamorphic relation is evaluated only when the reduced patch's commands are a sub-multiset of the full patch's commands (otherwise the deleted row was not unrelated)",
 ]
-FLOORS = {"quick": {"patches_ranked": 1500, "ranked_pairs": 3000, "sort_calls": 3000, "configs_ordered": 1500, "metamorphic_pairs": 150},
-          "thorough": {"patches_ranked": 60000, "ranked_pairs": 100000, "sort_calls": 100000, "configs_ordered": 60000, "metamorphic_pairs": 300}}
+FLOORS = {"quick": {"patches_ranked": 1500, "ranked_pairs": 3000, "sort_calls": 3000, "configs_ordered": 1500, "metamorphic_pairs": 150, "several_global_rule_cases": 300},
+          "thorough": {"patches_ranked": 60000, "ranked_pairs": 100000, "sort_calls": 100000, "configs_ordered": 60000, "metamorphic_pairs": 300, "several_global_rule_cases": 10000}}
 VENDORS = c01.BLOCK_VENDORS
 KNOWN_ZERO = "C08/first-ordering-rule-has-rank-zero"
 
@@ -41,11 +41,16 @@ def plan(tier, seed):
     return specs
 
 
-def gen_order(rng, rules, prefix, depth=0):
+def gen_order(rng, rules, prefix, depth=0, many_globals=False):
     pats = [r for r in rules if r.pat != "~" and not r.ignore]
     rng.shuffle(pats)
     out = []
     for r in pats:
+        if many_globals and r.glob:
+            out.append(RO.ORule(r.pat, glob=True))  # every %global command family is ordered, at every depth
+            continue
+        if many_globals and r.children and rng.random() < 0.5:
+            continue  # a block header the ordering rulebook does not mention: the %global rules still reach its children
         if rng.random() > 0.75:
             continue
         if rng.random() < 0.12:
@@ -53,7 +58,7 @@ def gen_order(rng, rules, prefix, depth=0):
             continue
         o = RO.ORule(r.pat)
         if r.children and rng.random() < 0.8:
-            o.children = gen_order(rng, r.children, prefix, depth + 1)
+            o.children = gen_order(rng, r.children, prefix, depth + 1, many_globals)
         elif not r.children and rng.random() < 0.1:
             o.glob = True
         out.append(o)
@@ -174,26 +179,35 @@ def check_config_level(tree_before, tree_after, olevel, prefix, acc, w, path=())
     return True
 
 
-def make_case(seed):
+def make_case(seed, many_globals=False):
     rng = random.Random(seed)
     vname = VENDORS[rng.randrange(len(VENDORS))]
     v, prefix, exitw, hw, fmt = c01.vendor_env(vname)
     rules = G.gen_rulebook(rng, depth=3, prefix=prefix, allow=("global", "catchall"))
-    order = gen_order(rng, rules, prefix)
+    if many_globals:
+        leaves = [r for r in rules if not r.children and r.pat != "~" and not r.pat.startswith(prefix + " ")]
+        if len(leaves) < 2:
+            leaves += [RB.Rule("g%d *" % i) for i in range(2 - len(leaves))]
+            rules[0:0] = leaves[-2:]
+        for r in leaves[:3]:
+            r.glob, r.logic, r.ordered = True, None, False
+    order = gen_order(rng, rules, prefix, 0, many_globals)
     old = G.gen_tree(rng, rules, fill=0.75)
     new = G.mutate_tree(rng, old, rules, rate=0.6) if rng.random() < 0.7 else G.gen_tree(rng, rules, fill=0.75)
     return vname, rules, order, old, new
 
 
-def check_case(seed, acc):
+def check_case(seed, acc, many_globals=False):
     from annet.api import _diff_and_patch
     from annet.annlib.patching import Orderer
     from annet.annlib.rbparser.ordering import compile_ordering_text
     install_sort_hook()
-    vname, rules, order, old, new = make_case(seed)
+    vname, rules, order, old, new = make_case(seed, many_globals)
+    if many_globals:
+        acc.count("several_global_rule_cases")
     v, prefix, exitw, hw, fmt = c01.vendor_env(vname)
     rtext, otext = RB.render(rules), RO.render(order)
-    w = {"seed": seed, "vendor": vname, "rulebook": rtext, "ordering": otext, "old": plain(old), "new": plain(new)}
+    w = {"seed": seed, "many_globals": many_globals, "vendor": vname, "rulebook": rtext, "ordering": otext, "old": plain(old), "new": plain(new)}
     try:
         rb = c01.compile_rb(rtext, vname)
         rb["ordering"] = compile_ordering_text(otext, vname)
@@ -343,7 +357,7 @@ def run_shard(spec, acc):
         if w.get("meta"):
             run_meta({"tier": "thorough", "shard": 0, "nshards": 1, "only": w.get("sample")}, acc)
         else:
-            check_case(w["seed"], acc)
+            check_case(w["seed"], acc, many_globals=bool(w.get("many_globals")))
         return
     if spec["mode"] == "meta":
         return run_meta(spec, acc)
@@ -354,3 +368,5 @@ def run_shard(spec, acc):
         w = check_case(rng.randrange(1 << 48), acc)
         if j < 2 and w:
             acc.sample({k2: w.get(k2) for k2 in ("vendor", "rulebook", "ordering", "old", "new", "patch")})
+        if j % 5 == 4:
+            check_case(rng.randrange(1 << 48), acc, many_globals=True)
